@@ -94,6 +94,11 @@ TAINTS = [
 ]
 TAINTS += [OPENC, f"[{OPENC}]", f"1.0*{OPENC}.fileno()", f"-0.25+len({OPENC}.read())", f"2.5 if {OPENC} else 0", MKDIRC, f"1.0*{MKDIRC}",
            f"0.5*{MKDIRC}", f"3*{OPENC}.fileno()", f"1e3+{OPENC}.fileno()", f".5-{OPENC}.fileno()"]
+# taints written in Vyxal's own syntax (list literals / programs whose items would print or evaluate tainted text):
+# as an input or as the operand of E they are data; only Ė may run them, and then under the same online context
+VY_TAINTS = [f"⟨`{CANARY}(7)`E⟩", "⟨`vx-out`,⟩", "⟨1|`vx-out`,|3⟩", f"`{CANARY}(7)`E", f"⟨`{OPENC}`†⟩", "λ`vx-out`,;†", "`vx-out`,", f"⟨⟨`{CANARY}(1)`E⟩⟩",
+             "⟨1|2|3⟩", f"⟨`a`|`{CANARY}(2)`E,⟩", "⟨`vx-out`₴|2⟩", f"⟨?E⟩", "⟨`vx-out`…⟩"]
+TAINTS += VY_TAINTS
 WEIRD = ["None", "...", "1e999", "-1e999", "[None, 'x']", "True", "False", "b'x'", "{1, 2}", "{'a': 1}", "1j", "-", "(", "''", '"""', "1_000", "0o17",
          "[1,[2,[3]]]", "[[]]", "()", "1,2", "[1.5, None]", "nan", "inf", "1e-999", "[True, [False]]", "(None,)", "\\", "\x00", "[...]", "{}", "set()"]
 BENIGN = WEIRD + ["[1,2,3]", "1.5", "'abc'", "(1,2)", "12", "abc", "-3", "[[1,2],[3]]", '"x"', "1e3", "0x10", ""]
@@ -233,6 +238,56 @@ def _shard_fixed(rec, arg):
         rec.sample({"program": "?E,", "flags": "", "inputs": [TAINTS[0]], "online": True})
 
 
+# ---- functions handed to elements: the callee must run under the same (online) context -----------------------
+FN_PAYLOADS = [_lit(TAINTS[0]) + "E", "77,1", _lit(OPENC) + "†1", "?E", "n…_1"]
+FN_SKIP = {"Q", "¨U"}
+
+
+def fn_programs(key, arity, quick=False):
+    """Programs that hand a lambda to `key` in every argument position, over a few first arguments."""
+    out = []
+    for pay in (FN_PAYLOADS[:3] if quick else FN_PAYLOADS):
+        for ar in (("", "2|") if quick else ("", "1|", "2|")):
+            lam = "λ" + ar + pay + ";"
+            if arity == 1:
+                forms = [lam + key]
+            elif arity == 2:
+                forms = ["⟨3|1|2⟩" + lam + key, lam + "⟨3|1|2⟩" + key, "4 " + lam + key, lam + "2 " + key, "`ab`" + lam + key]
+            elif arity == 3:
+                forms = ["⟨3|1|2⟩ 2 " + lam + key, "⟨3|1|2⟩" + lam + "2 " + key, lam + "⟨3|1|2⟩ 2 " + key, "1 5 " + lam + key, "⟨3|1|2⟩" + lam + lam + key]
+            else:
+                forms = []
+            out += [f + "," for f in forms]
+    return out
+
+
+def _shard_fn(rec, arg):
+    shard, nshards, quick = arg
+    els = vyxal.elements.elements
+    i = 0
+    for key, (_, arity) in els.items():
+        if key in FN_SKIP:
+            continue
+        for text in fn_programs(key, arity, quick):
+            i += 1
+            if i % nshards != shard:
+                continue
+            _do(rec, text, "", [TAINTS[0], TAINTS[0]], "function-argument-matrix")
+    for mod in progs.MOD_ARITY:
+        for pay in (FN_PAYLOADS[:3] if quick else FN_PAYLOADS):
+            for ar in (("", "2|") if quick else ("", "1|", "2|")):
+                lam = "λ" + ar + pay + ";"
+                ops = lam * progs.MOD_ARITY[mod]
+                for pre in ("⟨3|1|2⟩", "4 ", "⟨3|1|2⟩ 2 ", ""):
+                    for post in (",", "†,", "M,"):
+                        i += 1
+                        if i % nshards != shard:
+                            continue
+                        _do(rec, pre + mod + ops + post, "", [TAINTS[0], TAINTS[0]], "function-argument-matrix")
+    if shard == 0:
+        rec.sample({"program": fn_programs("Þ↓", 2)[0], "inputs": [TAINTS[0]], "online": True})
+
+
 def _shard_hyp(rec, arg):
     seed, n = arg
 
@@ -255,6 +310,8 @@ def run(rec, tier, seed):
     ns = campaign.NCPU
     campaign.parallel(rec, _shard_fixed, [(s, ns) for s in range(ns)])
     rec.exhaustive.append("taint matrix (every taint x evaluation program x input flag) and print matrix (value maker x printer x output flag)")
+    campaign.parallel(rec, _shard_fn, [(s, ns * 2, quick) for s in range(ns * 2)])
+    rec.exhaustive.append("function-argument matrix: every element key and modifier x lambda payloads (print / E / † on tainted text) in every argument position")
     n = 150 if quick else 8000
     campaign.parallel(rec, _shard_hyp, [(seed * 1000 + i, n) for i in range(ns)])
 
